@@ -19,12 +19,12 @@ m = {
     },
     "engines": [
         {"name": "lean-models", "path": "lean/", "serves_properties": sorted(PROPS), "kind_free_text": "Lean 4 executable models + kernel-checked theorems (lake build), axiom audit"},
-        {"name": "extract", "path": "extract/", "serves_properties": sorted(PROPS), "kind_free_text": "go/ast source-fact extractor regenerating lean/Neutrino/Gen/*.lean from /repo on every run"},
+        {"name": "extract", "path": "extract/", "serves_properties": sorted(PROPS), "kind_free_text": "go/ast + go/types source-fact extractor and Go-to-Lean translator (extract/trans*.go: pure/decision functions of the repo become total Lean defs in Gen/Trans*.lean, proved equal to the hand models by the Cxx_trans_* theorems) regenerating lean/Neutrino/Gen/*.lean from /repo on every run"},
         {"name": "corr", "path": "harness/", "serves_properties": sorted(PROPS), "kind_free_text": "Go correspondence harness driving the real code in-process; traces replayed by the compiled Lean driver (model diff + property oracle)"},
     ],
     "checks": [],
     "not_applicable": [],
-    "notes": "Technique family: machine-checked proof in Lean 4 about executable models, tied to /repo by a regenerated fact layer and a differential correspondence check on every run. See DESIGN.md.",
+    "notes": "Technique family: machine-checked proof in Lean 4 about executable models, tied to /repo on every run in three ways: (1) pure/decision functions are TRANSLATED from the Go source into Lean definitions and proved equal to the hand-written model functions (Gen/Trans*.lean, theorems Cxx_trans_*), (2) regenerated source facts (constants, step orders, tables, lock regions, blocking sites) pinned by theorems, (3) a differential correspondence check of the executable models against the real code in-process plus an observation-level property oracle. A broken proof obligation or correspondence triggers a search for a failing input; none found => VIOLATION ... no-failing-input-found. See DESIGN.md (section 0 as built, 4 trusted base, 8 findings, 13/14 seeded regressions and harmless refactors).",
 }
 for pid in sorted(PROPS):
     t = TEXT[pid]
